@@ -20,6 +20,7 @@ func init() {
 			"Added in round 2: R6 covers fshelper.Copier.copyFile too (used by Cache.Copy) and requires the destination writer to be opened only after the source reader could be opened; R7 every possibly-nil return of Commit follows the loops over all journals — a 'nothing changed' skip is accepted only if its flag is armed again on every failing exit after it was cleared (else the Commit after a failed one is a successful no-op); R8 the module's own backends replace content at open time (same rules as C04.R1/R2): Commit pushes files with remote.Writer + io.Copy, and io.Copy never calls Write for an empty source. " +
 			"Added in round 5: R2 also requires that no branch of a replay loop depends (by operators only) on the value stored with the journal entry — the journals are sets, a per-entry flag cleared by an earlier Commit makes a later Commit skip an entry that a replayed Remove/RemoveAll has made necessary again; R9 a pending change is never matched by a bare string prefix (HasPrefix(p, dir) without the separator also matches the sibling 'dirx/...'; same rule as C02.R8). " +
 			"Added in round 6: R2 also requires that no replay branch depends on what another journal holds for the ranged path (entries are never retracted and carry no order); R5 gives a function literal that is only run synchronously under its creator's lock (called directly, or handed to a helper that only calls it) the creator's lockset. " +
+			"Added in round 7: R10 inside Commit no journal of creating operations (write, mkdir) is shrunk (delete, clear, fresh map) while a journal of removals is kept - a later Commit would replay the removal without the write that followed it. " +
 			"NOT decided — and known to fail on some histories, which this family cannot see (DESIGN.md §6): equality of the committed tree with direct application (directory copies journal only the root and are dropped by the file-only replay, Remove of a remote empty directory is filtered by the file-only test, the four journals are replayed in a fixed order regardless of operation order, recovery by a second Commit).",
 	})
 }
@@ -466,6 +467,48 @@ func rulesC06(c *Ctx) {
 		c.Check(okOp, "R2", con, rng.Pos(), "ranged over, and "+strings.Join(ops, "/")+" is applied to the remote with the ranged path", "the loop over journal "+jn+" does not apply "+strings.Join(ops, "/")+" to the remote for the ranged path — these buffered operations are silently dropped (or replayed as a different operation)")
 	}
 	c.Floor("R2", n2, 4)
+
+	// ---- R10 the journals are retired together ----------------------------------------------------
+	// The replay of a Remove/RemoveAll is only harmless because the write that followed it is replayed
+	// after it on every Commit.  Dropping the entries of one journal (delete, or a fresh map) while
+	// another journal that some operation writes is kept makes a later Commit replay the removal alone.
+	{
+		shrunk := map[string]token.Pos{}
+		for _, g := range group {
+			eachInstr(g, func(_ *ssa.BasicBlock, _ int, in ssa.Instruction) {
+				switch x := in.(type) {
+				case *ssa.Call:
+					if b, ok := x.Call.Value.(*ssa.Builtin); ok && (b.Name() == "delete" || b.Name() == "clear") && len(x.Call.Args) > 0 {
+						if n, base := fieldLoadName(x.Call.Args[0]); base != nil && !freshBase(base) {
+							shrunk[n] = x.Pos()
+						}
+					}
+				case *ssa.Store:
+					if fa, ok := x.Addr.(*ssa.FieldAddr); ok && !freshBase(fa.X) {
+						if _, isMap := x.Val.Type().Underlying().(*types.Map); isMap {
+							shrunk[fieldName(fa)] = x.Pos()
+						}
+					}
+				}
+			})
+		}
+		var kept, dropped []string
+		var at token.Pos
+		for _, jn := range roles.journals {
+			if len(roles.recorder[jn]) == 0 {
+				continue
+			}
+			destructive := roles.class[jn] == "Remove" || roles.class[jn] == "RemoveAll"
+			if p, ok := shrunk[jn]; ok && !destructive {
+				dropped = append(dropped, jn)
+				at = p
+			} else if !ok && destructive {
+				kept = append(kept, jn)
+			}
+		}
+		c.Check(len(dropped) == 0 || len(kept) == 0, "R10", "Commit retires the journals together or not at all", orPos(at, commit.Pos()), "no journal of creating operations (write, mkdir) is emptied while a journal of removals is kept",
+			fmt.Sprintf("Commit drops entries of %v but keeps %v: a later Commit replays the kept operations without the ones that followed them (a removal is replayed, the write after it is not) — the remote tree loses data", dropped, kept))
+	}
 
 	// ---- R7 a successful Commit has replayed the journals -----------------------------------------
 	ruleCommitReplays(c, commit, roles, group)
